@@ -1911,7 +1911,7 @@ class FileIterator(FileStorageFormatter):
             if not (l_ + 12 <= self._file_size and
                     self._read_num(self._file_size - l_) == l_):
                 if self._file_size < (1 << 20):
-                    return self._scan_foreward(start)
+                    return self._scan_forward(pos1, start)
                 raise ValueError("Can't find last transaction in large file")
             pos2 = self._file_size - l_ - 8
             file.seek(pos2)
